@@ -62,7 +62,18 @@ func main() {
 	if *replayIdx >= 0 {
 		c.Replaying, c.ReplayJob, c.ReplayIndex = true, *replayJob, *replayIdx
 	}
-	f(c)
+	func() {
+		// A panic that escapes a monitor (a library call the monitor made outside core.Call) must not
+		// turn the shard into an unexplained death: when the panicking frame belongs to the library it
+		// is a C04 witness like any other, recorded with its stack; the rest of this shard's cases are
+		// not run. A panic raised by the harness itself makes the run inconclusive.
+		defer func() {
+			if r := recover(); r != nil {
+				c.EscapedPanic(r, string(debug.Stack()))
+			}
+		}()
+		f(c)
+	}()
 	if err := c.Finish(); err != nil {
 		fmt.Fprintf(os.Stderr, "finish: %v\n", err)
 		os.Exit(3)
